@@ -1,7 +1,7 @@
 //! C01, C02, C08, C09, C10, C11, C12: properties of single and merged timelines.
 
-use crate::desc::*;
-use crate::oracle::*;
+use mv_core::desc::*;
+use mv_core::oracle::*;
 use mina::prelude::*;
 use mv_engine::{Obs, Run};
 use mv_model::{exact32, ulps_between, Locate, Phase, Rep, Timing};
